@@ -25,3 +25,12 @@ package parse
 //@ func (p Parser) VisitTemporalBound(ctx)
 //@   opt nosafety
 //@   ensures result is ast.TemporalBound
+
+// ---- C09: what prints as a function application parses as one, and nothing else does --------------------------------
+// The text NAME(args) becomes a function application only when NAME carries the function prefix "fn:" in full; every
+// other name - also one that merely begins with the letters "fn" - is a predicate and yields an atom (an atom over a
+// predicate called fnord prints as fnord(...) and must read back as that atom).
+//@ func (p Parser) VisitAppl(ctx)
+//@   opt nosafety
+//@   ensures result is ast.ApplyFn ==> strings.isPrefix("fn:", (result as ast.ApplyFn).Function.Symbol)
+//@   ensures result is ast.ApplyFn || result is ast.Atom
